@@ -58,6 +58,19 @@ func factDiff(a, b *Fact, na, nb int64) []string {
 					d = append(d, "F.Any."+ia.Type().Field(j).Name)
 				}
 			}
+		case "Items":
+			if len(a.Items) != len(b.Items) {
+				d = append(d, "F.Items")
+				continue
+			}
+			for k := range a.Items {
+				ia, ib := reflect.ValueOf(*a.Items[k]), reflect.ValueOf(*b.Items[k])
+				for j := 0; j < ia.NumField(); j++ {
+					if !reflect.DeepEqual(ia.Field(j).Interface(), ib.Field(j).Interface()) {
+						d = append(d, fmt.Sprintf("F.Items[%d].%s", k, ia.Type().Field(j).Name))
+					}
+				}
+			}
 		case "Arr", "FArr", "SArr":
 			if x.Len() != y.Len() {
 				d = append(d, "F."+f.Name)
@@ -876,6 +889,8 @@ func pathShape(v *Var) string {
 		return "slice element"
 	case strings.HasPrefix(t, "F.In."):
 		return "nested pointer field"
+	case strings.HasPrefix(t, "F.Items["):
+		return "field of a struct in a slice"
 	case strings.HasPrefix(t, "F.Any."):
 		return "field behind an interface-typed field"
 	}
